@@ -166,7 +166,7 @@ class SumAggregator:
         for lit in body:
             if is_conditional(lit):  # currently not supported, happens in soft constraints
                 return None
-            if not is_predicate(lit):
+            if not is_predicate(lit) or lit.sign != Sign.NoSign:
                 continue
             symbol = lit.atom.symbol
             trigger_index = None
